@@ -35,6 +35,7 @@ fn rules_file(tag: &str) -> String {
 pub fn catalogue(kit: &c18::Kit, nonce: &str) -> Vec<Repo> {
     let lua_string = kit.script(1);
     let lua_nil = kit.script(0);
+    let lua_stateful = kit.script(8);
     let md = "# T\n\n[//]: # (<block name=\"m\" keep-sorted affects=\"x.py:sx, :n\">)\nb line\na line\n\n[//]: # (</block>)\n\n<!-- <block name=\"n\" line-count=\"<1\"> -->\ntext\n<!-- </block> -->\n".to_string();
     let affects_x = "# <block name=\"a\" affects=\"d/y.py:b, z.md:m, :missing\">\nk = 1\n# </block>\n# <block name=\"sx\" keep-unique>\nu = 1\nu = 1\n# </block>\n".to_string();
     let affects_y = "# <block name=\"b\" affects=\"x.py:a\" severity=\"warning\">\nv = 1\n# </block>\n# <block name=\"other\">\nw = 1\n# </block>\n".to_string();
@@ -42,7 +43,7 @@ pub fn catalogue(kit: &c18::Kit, nonce: &str) -> Vec<Repo> {
     let scripted = format!(
         "# <block id=\"l1\" check-lua=\"{lua_string}\">\nv = 1\n# </block>\n# <block id=\"l2\" check-lua=\"{lua_nil}\" keep-sorted>\nb = 1\na = 1\n# </block>\n# <block id=\"a1\" check-ai=\"case={nonce}-a1;reply=not-valid; c1\" severity=\"info\">\nv = 2\n# </block>\n"
     );
-    let scripted2 = format!("# <block id=\"a2\" check-ai=\"case={nonce}-a2;reply=ok-upper; c2\">\nv = 3\n# </block>\n# <block id=\"l3\" check-lua=\"{lua_string}\" line-count=\"<1\">\nv = 4\n# </block>\n");
+    let scripted2 = format!("# <block id=\"a2\" check-ai=\"case={nonce}-a2;reply=ok-upper; c2\">\nv = 3\n# </block>\n# <block id=\"l3\" check-lua=\"{lua_string}\" line-count=\"<1\">\nv = 4\n# </block>\n# <block id=\"l4\" check-lua=\"{lua_stateful}\">\nv = 5\n# </block>\n# <block id=\"l5\" check-lua=\"{lua_stateful}\">\nv = 6\n# </block>\n");
     vec![
         Repo {
             name: "R1-rules-three-files",
@@ -90,6 +91,14 @@ pub fn catalogue(kit: &c18::Kit, nonce: &str) -> Vec<Repo> {
                 globs: vec![],
                 list_only: false,
             }
+        },
+        Repo {
+            // A directory whose name looks like a source file: only the walk may tell them apart.
+            name: "R8-directory-named-like-a-file",
+            files: vec![("top.py".into(), rules_file("8")), ("pkg.js/inner.py".into(), rules_file("9"))],
+            diff_sections: None,
+            globs: vec![],
+            list_only: false,
         },
         Repo {
             name: "R6-one-malformed-rule-among-violations",
@@ -272,13 +281,13 @@ pub fn run(cfg: &Cfg, sink: &Arc<Sink>) -> Report {
         std::env::set_var("BLOCKWATCH_AI_API_URL", &FakeAi::global().url);
         std::env::set_var("BLOCKWATCH_AI_API_KEY", "k");
     }
-    let mut report = Report::new("for each repository of a catalogue (7 repositories of 3–4 files: same block name modified in two files with references to each, rules with mixed severities, cross-file affects in diff mode with 3 diff sections, diff + glob, Lua + AI + sync rules, `list` with diff, one malformed rule among violations) every combination of block-map iteration order × file discovery order × order of the diff's file sections is taken, and for each every schedule of the seams (validator thread bodies, async delivery orders) is executed (E2); the canonical observable (status + sorted diagnostics / listed blocks / error) must be one single value per repository; through the real CLI every directory of each repository is used as cwd (exhaustive) and fresh processes with 1 and 16 runtime workers are repeated (sampling supplement: per-process hash seeds and thread timing are not enumerable); non-trivial = every combination");
+    let mut report = Report::new("for each repository of a catalogue (8 repositories of 2–4 files: a directory named like a source file, same block name modified in two files with references to each, rules with mixed severities, cross-file affects in diff mode with 3 diff sections, diff + glob, Lua + AI + sync rules, `list` with diff, one malformed rule among violations) every combination of block-map iteration order × file discovery order × order of the diff's file sections is taken, and for each every schedule of the seams (validator thread bodies, async delivery orders) is executed (E2); the canonical observable (status + sorted diagnostics / listed blocks / error) must be one single value per repository; through the real CLI every directory of each repository is used as cwd (exhaustive) and fresh processes with 1 and 16 runtime workers are repeated (sampling supplement: per-process hash seeds and thread timing are not enumerable); non-trivial = every combination");
     report.assume("hash maps other than the block map are only looked up or iterated into order-insensitive outputs; the fresh-process repetitions are a labelled sampling pass for them");
-    let reference = Arc::new(Mutex::new(vec![None; 7]));
+    let reference = Arc::new(Mutex::new(vec![None; 8]));
     let schedules = Arc::new(AtomicU64::new(0));
     let thorough = cfg.tier == Tier::Thorough;
     let mut cases = Vec::new();
-    let sizes: [(usize, usize); 7] = [(4, 0), (3, 3), (4, 2), (3, 0), (3, 2), (3, 3), (3, 0)];
+    let sizes: [(usize, usize); 8] = [(4, 0), (3, 3), (4, 2), (3, 0), (3, 2), (3, 3), (2, 0), (3, 0)];
     for (repo, (files, sections)) in sizes.iter().enumerate() {
         let file_perms = permutations(*files).len();
         let diff_perms = permutations(*sections).len().max(1);
@@ -300,7 +309,7 @@ pub fn run(cfg: &Cfg, sink: &Arc<Sink>) -> Report {
     let (r2, s2) = (Arc::clone(&reference), Arc::clone(&schedules));
     report.phase(engine::explore(
         "map order × discovery order × diff-section order × all schedules (library)",
-        &format!("{n} order combinations over 7 repositories, {} for each", if thorough { "every schedule of the seams" } else { "every schedule with ≤3 deviations from the default order" }),
+        &format!("{n} order combinations over 8 repositories, {} for each", if thorough { "every schedule of the seams" } else { "every schedule with ≤3 deviations from the default order" }),
         Grid { cases, check: move |c: &Case, s: &Sink| check_case(c, bound, &r2, &s2, s) },
         sink,
         cfg.threads,
@@ -327,7 +336,7 @@ pub fn replay(cfg: &Cfg, input: &Value, sink: &Arc<Sink>) {
         return;
     }
     // Replaying one combination needs the reference of the identity combination first.
-    let reference = Mutex::new(vec![None; 7]);
+    let reference = Mutex::new(vec![None; 8]);
     let schedules = AtomicU64::new(0);
     let repo = input["repo"].as_u64().unwrap_or(0) as usize;
     check_case(&Case { repo, map_order: 0, walk_order: 0, diff_order: 0 }, None, &reference, &schedules, sink);
